@@ -46,6 +46,7 @@ const (
 	kStrTok // a string carried as an integer token (units whose strings come from the outside world)
 	kPixRow // a row of a frame's pixel grid obtained by `range X.Pix`: represented by its length (a Z)
 	kBytes  // a []byte value built inside the translated code (literals, append): a Gallina list Z
+	kSList  // a []string literal of string tokens built inside the translated code (units with strList): a Gallina list Z
 )
 
 type ty struct {
@@ -63,7 +64,7 @@ func (t ty) coq() string {
 		return "Z"
 	case kBool:
 		return "bool"
-	case kHList, kBytes:
+	case kHList, kBytes, kSList:
 		return "list Z"
 	case kStruct:
 		return t.name
@@ -89,7 +90,7 @@ func (t ty) zero() string {
 		return "(-1)"
 	case kBool:
 		return "false"
-	case kHList, kBytes:
+	case kHList, kBytes, kSList:
 		return "[]"
 	case kStr:
 		return "\"\"%string"
@@ -125,6 +126,7 @@ type unit struct {
 	extLits bool     // composite literals of types outside the translation are built by the outside world ("new:<Type>{keys}")
 	nilZero bool     // `return nil, err` where a *T of a translated struct T is expected: the zero record (callers test the error)
 	outside bool     // see outside.go: package-level variables, byte buffers, literals of foreign types, endless loops
+	strList bool     // see strlist.go: []string literals, lists of strings held by the outside world, `for _, s := range` over both
 }
 
 type world struct {
@@ -320,6 +322,9 @@ type fnTr struct {
 	endlessEntry int      // length of the environment at its entry
 	extra        []string // definitions emitted before the function's own (bodies of endless loops)
 	coqName      string
+
+	// strlist.go
+	rangeIDs map[token.Pos]int // range loops over string lists, numbered in order of appearance
 }
 
 func (f *fnTr) fresh(base string) string {
@@ -411,6 +416,8 @@ func (f *fnTr) asArg(v val, src ast.Expr) string {
 		return "AFrames " + v.code
 	case kBytes:
 		return "ABytes " + v.code
+	case kSList:
+		fail("a []string built by the translated code is passed to the outside world: %s", exprString(src))
 	}
 	return "ASym " + coqString(f.path(src))
 }
@@ -424,7 +431,7 @@ func (f *fnTr) pure(e ast.Expr, en env) bool {
 			if id, ok := x.Fun.(*ast.Ident); ok {
 				switch id.Name {
 				case "len", "int", "int64", "int32", "uint16", "uint32", "uint8", "byte", "uint64", "uint":
-					if id.Name == "len" && (isPixSelector(x.Args) || f.isByteTokIdent(x.Args, en)) {
+					if id.Name == "len" && (isPixSelector(x.Args) || f.isByteTokIdent(x.Args, en) || f.isListTokIdent(x.Args, en)) {
 						p = false // len(X.Pix), len of a byte-slice token: asked of the outside world
 					}
 					return true // (of a float operand: made impure by the operand itself)
@@ -637,6 +644,9 @@ func (f *fnTr) expr(e ast.Expr, en env, k func(val, env) string) string {
 			return code
 		}
 		return f.expr(x.X, en, func(l val, en env) string {
+			if code, ok := f.strListIndex(x, l, en, k); ok {
+				return code
+			}
 			if l.t.k != kHList {
 				fail("indexing something that is not a frame slice: %s", exprString(x))
 			}
@@ -912,6 +922,9 @@ func (f *fnTr) call(c *ast.CallExpr, en env, k func(val, env) string) string {
 	if id, ok := c.Fun.(*ast.Ident); ok && id.Name == "__pixrow" && len(c.Args) == 2 {
 		return f.pixRowTake(c, en, k)
 	}
+	if id, ok := c.Fun.(*ast.Ident); ok && id.Name == "__listelem" && len(c.Args) == 2 {
+		return f.strListElem(c, en, k)
+	}
 	if code, ok := f.byteConv(c, en, k); ok {
 		return code
 	}
@@ -1008,6 +1021,9 @@ func (f *fnTr) call(c *ast.CallExpr, en env, k func(val, env) string) string {
 					}
 					if v.t.k == kBytes {
 						return k(val{"(go_len " + v.code + ")", ty{k: kInt}}, en)
+					}
+					if code, ok := f.strListLen(v, en, k); ok {
+						return code
 					}
 					if v.t.k != kHList {
 						fail("len of %s", exprString(c.Args[0]))
@@ -1489,6 +1505,9 @@ func (f *fnTr) block(items []item, en env, defers []deferred) string {
 		// for y, row := range X.Pix
 		if fs, ok := f.rangePix(s, en); ok {
 			return f.forStmt(fs, rest, en, defers)
+		}
+		if bs, ok := f.rangeStrList(s, en); ok {
+			return f.block(append([]item{{s: bs}}, rest...), en, defers)
 		}
 		// for i := range X  (index only) over a slice of frame handles or a float matrix
 		if s.Value != nil || s.Key == nil || s.Tok != token.DEFINE {
@@ -2499,6 +2518,11 @@ var fnUnits = []*unit{
 	{name: "ConnLoop", dir: "cmd/thermal-recorder", files: []string{"main.go"}, funcs: []string{"handleConn", "frameParser"},
 		skip: map[string]bool{}, opaque: []string{"[]byte", "*CPTVFileRecorder", "func([]byte, *cptvframe.Frame, int) error"},
 		strTok: true, outside: true},
+	// the start-up clean-up and the constant recorder's space reclaim: a unit of its own, so that FileRecorder.v
+	// (where deleteExcessRecordings is a call that leaves the translation) stays as it is
+	{name: "FileCleanup", dir: "cmd/thermal-recorder", files: []string{"cptvfilerecorder.go", "main.go"},
+		funcs: []string{"deleteTempFiles", "deleteExcessRecordings"}, skip: map[string]bool{},
+		strTok: true, outside: true, strList: true},
 }
 
 // ---------------------------------------------------------------------------------------
@@ -2673,6 +2697,9 @@ func (f *fnTr) zeroRecord(name string) string {
 func (f *fnTr) composite(cl *ast.CompositeLit, en env, k func(val, env) string) string {
 	if at, ok := cl.Type.(*ast.ArrayType); ok && f.u.byteTok && isByteSlice(at) {
 		return f.bytesLit(cl, en, k)
+	}
+	if at, ok := cl.Type.(*ast.ArrayType); ok && f.u.strList && isStringSlice(at) {
+		return f.strListLit(cl, en, k)
 	}
 	t := f.w.goType(cl.Type)
 	if t.k != kStruct && f.u.extLits {
